@@ -283,9 +283,20 @@ def analyse_translated(unit, extra):
         return out
     k = Kernel(unit, "Imagnetic")
     # the channel loop: the outermost `for` that contains a store into local_values.vector[...]
+    # the local parameter table is found by role: the union variable whose `.vector[...]` member is stored into
+    lv = None
+    for x in cfront.walk(k.body):
+        if x.get("kind") == "BinaryOperator" and x.get("opcode") == "=":
+            m = re.match(r"(\w+)\.vector\[", norm(c_text(kids(x)[0])))
+            if m:
+                lv = m.group(1)
+                break
+    if lv is None:
+        raise AnalysisError("%s: no store into <table>.vector[...] in the Imagnetic kernel" % unit.name)
+
     def stores(n):
         return [x for x in cfront.walk(n) if x.get("kind") == "BinaryOperator" and x.get("opcode") == "=" and
-                norm(c_text(kids(x)[0])).startswith("local_values.vector[")]
+                norm(c_text(kids(x)[0])).startswith(lv + ".vector[")]
     loops = [n for n in cfront.walk(k.body) if n.get("kind") == "ForStmt" and stores(n)]
     calls_all = k.model_calls(names=("Iq", "Fq", "Iqac", "Iqabc", "Iqxy"))
     spin = [l for l in loops if any(c is x for c in calls_all for x in cfront.walk(l))]
@@ -304,7 +315,7 @@ def analyse_translated(unit, extra):
         for name in set(re.findall(r"(?<![\w.])([A-Za-z_]\w*)", text)):
             if name in decls and not decls[name][1] and name not in seen:
                 init = decls[name][0]
-                direct = {m for m in re.findall(r"local_values\.table\.(\w+)", init) if m in sld}
+                direct = {m for m in re.findall(r"%s\.table\.(\w+)" % re.escape(lv), init) if m in sld}
                 if direct:
                     deps.add((name, tuple(sorted(direct))))
                 deps |= sld_deps(init, seen + (name,))
@@ -315,7 +326,7 @@ def analyse_translated(unit, extra):
         stale = set()
         for a in args:
             stale |= sld_deps(a)
-        reads = sorted({m for a in args for m in re.findall(r"local_values\.table\.(\w+)", a) if m in sld})
+        reads = sorted({m for a in args for m in re.findall(r"%s\.table\.(\w+)" % re.escape(lv), a) if m in sld})
         inst(not stale, "Imagnetic", "%s(%s)" % (c_callee(c), ", ".join(args))[:150], c.get("_line", 0),
              "SLD-typed table members read in the call itself: %s" % reads if not stale else
              "argument goes through %s, computed before the channel loop from SLD member(s) %s: the per-channel effective SLD "
